@@ -32,6 +32,24 @@ from semantiva.configurations.load_pipeline_from_yaml import load_pipeline_from_
 from semantiva.registry.bootstrap import RegistryProfile, apply_profile
 
 
+def _publish_failure(
+    transport: SemantivaTransport, job_id: str, error: BaseException | str
+) -> None:
+    """Report a failed job on its status channel so the master can complete its Future."""
+    message = (
+        f"{type(error).__name__}: {error}"
+        if isinstance(error, BaseException)
+        else str(error)
+    )
+    transport.publish(
+        f"jobs.{job_id}.status",
+        data=NoDataType(),
+        context=ContextType({"job_id": job_id}),
+        metadata={"job_id": job_id, "status": "error", "error": message},
+        require_ack=False,
+    )
+
+
 def worker_loop(
     worker_id: int,
     transport: SemantivaTransport,
@@ -92,6 +110,7 @@ def worker_loop(
                 # Optional debug output of the raw Message
                 worker_logger.debug(f"Worker {job_id} received message: {msg}")
 
+                status_published = False
                 try:
                     registry_profile_spec = msg.metadata.get("registry_profile")
                     if registry_profile_spec:
@@ -114,6 +133,8 @@ def worker_loop(
                             worker_logger.error(
                                 f"Failed to load pipeline YAML for job {job_id} from '{pcfg}': {e}"
                             )
+                            _publish_failure(transport, job_id, e)
+                            status_published = True
                             try:
                                 msg.ack()
                             except Exception:
@@ -125,6 +146,10 @@ def worker_loop(
                         worker_logger.error(
                             f"Invalid pipeline configuration received for job {job_id}: {pcfg}"
                         )
+                        _publish_failure(
+                            transport, job_id, "invalid pipeline configuration"
+                        )
+                        status_published = True
                         msg.ack()  # acknowledge to remove the message if applicable
                         continue  # skip processing this message
                     data = msg.data if msg.data is not None else NoDataType()
@@ -161,6 +186,7 @@ def worker_loop(
                         context=result_ctx,
                         require_ack=False,
                     )
+                    status_published = True
                     worker_logger.info(f"Completed job {job_id}")
 
                     # 6) Acknowledge the incoming message if transport supports it
@@ -168,6 +194,13 @@ def worker_loop(
                 except Exception as e:
                     # Log any error during processing without crashing the loop
                     worker_logger.exception(f"Worker failed job {job_id}: {e}")
+                    if not status_published:
+                        try:
+                            _publish_failure(transport, job_id, e)
+                        except Exception as report_exc:
+                            worker_logger.error(
+                                f"Could not report failure of job {job_id}: {report_exc}"
+                            )
 
             # Close this subscription before the next polling iteration
             sub.close()
